@@ -12,7 +12,7 @@ Proof. apply xinit_inv. Qed.
 (* ---------- CleanStaleSourceClients on one universe *)
 Lemma clean_uni_inv c s fl o u :
   Inv c s -> s_heap s o = Live u ->
-  exists s', clean_uni fl o s = Some s' /\ Inv c s' /\ same_ports s s' /\ keeps_live s s' /\
+  exists s', clean_uni fl o s = Some s' /\ Inv c s' /\ same_ports s s' /\ keeps_num s s' /\
     s_store s' = s_store s /\
     (forall x, x <> o -> s_heap s' x = s_heap s x) /\
     (exists u', s_heap s' o = Live u' /\
@@ -23,8 +23,8 @@ Proof.
   - set (u' := uni_set_src u (filter (fun cl => negb (fl cl)) (u_src u))).
     set (s1 := set_heap s (upd (s_heap s) o (Live u'))).
     destruct (cand_if_inactive_fields o u' s1) as (F1 & F2 & F3 & F4 & F5 & F6 & F7).
-    assert (keeps_live s (cand_if_inactive o u' s1)) as K.
-    { intros x ux H. rewrite F5. exact (keeps_live_upd s o u u' Hu eq_refl x ux H). }
+    assert (keeps_num s (cand_if_inactive o u' s1)) as K.
+    { intros x ux H. rewrite F5. exact (keeps_num_upd s o u u' Hu eq_refl x ux H). }
     assert (same_ports s (cand_if_inactive o u' s1)) as SP by (repeat split; assumption).
     eexists. split; [reflexivity|]. split; [|split; [exact SP|split; [exact K|split; [exact F6|split]]]].
     + apply (Inv_heap_step c s _ I); [|exact SP | exact K].
@@ -33,13 +33,13 @@ Proof.
     + exists u'. split; [rewrite F5; cbn; apply upd_eq|].
       intros cl Hin Hf. cbn. apply filter_In. split; [exact Hin | rewrite Hf; reflexivity].
   - exists s. split; [reflexivity|]. split; [exact I|]. split; [apply same_ports_refl|].
-    split; [apply keeps_live_refl|]. split; [reflexivity|]. split; [reflexivity|].
+    split; [apply keeps_num_refl|]. split; [reflexivity|]. split; [reflexivity|].
     exists u. tauto.
 Qed.
 
 Lemma clean_all_inv c fl ns : forall s,
   Inv c s ->
-  exists s', clean_all fl ns s = Some s' /\ Inv c s' /\ same_ports s s' /\ keeps_live s s' /\
+  exists s', clean_all fl ns s = Some s' /\ Inv c s' /\ same_ports s s' /\ keeps_num s s' /\
     s_store s' = s_store s /\
     (forall o u cl, s_heap s o = Live u -> In cl (u_src u) -> fl o cl = false ->
        exists u', s_heap s' o = Live u' /\ In cl (u_src u')) /\
@@ -47,14 +47,14 @@ Lemma clean_all_inv c fl ns : forall s,
 Proof.
   induction ns as [|n r IH]; intros s I; cbn.
   - exists s. split; [reflexivity|]. split; [exact I|]. split; [apply same_ports_refl|].
-    split; [apply keeps_live_refl|]. split; [reflexivity|]. split; [intros o u cl Hu Hin _; eauto | reflexivity].
+    split; [apply keeps_num_refl|]. split; [reflexivity|]. split; [intros o u cl Hu Hin _; eauto | reflexivity].
   - destruct (sfind n (s_store s)) as [o|] eqn:Ef; [|apply IH; exact I].
     destruct (store_live c s n o I Ef) as (u & Hu & _).
     destruct (clean_uni_inv c s (fl o) o u I Hu) as (s1 & E1 & I1 & SP1 & K1 & St1 & Oth & (u1 & Hu1 & Keep1)).
     rewrite E1.
     destruct (IH s1 I1) as (s' & E & I' & SP & K & St & Keep & Dead).
     exists s'. split; [exact E|]. split; [exact I'|].
-    split; [exact (same_ports_trans _ _ _ SP1 SP)|]. split; [exact (keeps_live_trans _ _ _ K1 K)|].
+    split; [exact (same_ports_trans _ _ _ SP1 SP)|]. split; [exact (keeps_num_trans _ _ _ K1 K)|].
     split; [congruence|]. split.
     + intros o2 u2 cl Hu2 Hin Hf. destruct (N.eq_dec o2 o) as [->|Ne].
       * rewrite Hu in Hu2. injection Hu2 as <-.
@@ -125,7 +125,7 @@ Proof.
                (xo = XBase GC /\ u_active u = false /\ s_heap (x_s (y_x y')) a = Freed))) as L.
   { intros xo st. destruct (xstep_inv xc (y_x y) xo YI) as (x' & r & E & XI' & Lf).
     rewrite E. exists (mky x' st), r. split; [reflexivity|]. split; [exact XI' | exact Lf]. }
-  destruct o as [xo | n cl |].
+  destruct o as [xo | n cl | | p v].
   - assert (exists y' r, ystep xc y (YX xo) = YOk y' r /\ YInv xc y' /\
             (forall a u, s_heap (x_s (y_x y)) a = Live u ->
                (exists u', s_heap (x_s (y_x y')) a = Live u' /\ u_num u' = u_num u) \/
@@ -139,7 +139,13 @@ Proof.
     destruct (Lf a u Ha) as [H|(H1 & _)]; [left; exact H | discriminate].
   - destruct (yhk_inv xc y YI) as (y' & l & E & YI' & Lf & _).
     exists y', (RSaved l). split; [exact E|]. split; [exact YI'|]. intros a u Ha.
-    destruct (Lf a u Ha) as [H|H]; [left; exact H | right; split; [right; reflexivity | exact H]].
+    destruct (Lf a u Ha) as [H|H]; [left; exact H | right; split; [right; reflexivity | exact H]].  - cbn [ystep]. destruct (port_of (xc_cfg xc) (x_s (y_x y)) p).
+    2:{ exists y, RUnit. split; [reflexivity|]. split; [exact YI|]. intros a u Ha. left. eauto. }
+    cbn zeta. destruct (SOURCE_PRIORITY_MAX <? u8 v) eqn:El.
+    { exists y, (RBool false). split; [reflexivity|]. split; [exact YI|]. intros a u Ha. left. eauto. }
+    eexists _, _. split; [reflexivity|]. split; [|intros a u Ha; left; cbn; eauto].
+    unfold YInv. cbn [y_x]. apply XInv_lift; [exact YI | | apply pframe_eq; reflexivity].
+    apply Inv_set_pprio; [exact (proj1 YI)|]. apply N.ltb_ge in El. unfold SOURCE_PRIORITY_MAX in El. exact El.
 Qed.
 
 Lemma yrun_inv xc ops : forall y, YInv xc y -> exists y', yrun xc y ops = Some y' /\ YInv xc y'.
